@@ -1,5 +1,6 @@
 /* C10 - fiber_yield fairness: a ready fiber is bypassed a bounded number of
  * times; yield-based polling loops terminate. */
+#define H_WITH_DEFERRED_UNLOCK
 #include "common.h"
 #include "fiber_manager.h"
 #include "fiber_mutex.h"
@@ -106,6 +107,10 @@ static void* fib(void* p) {
   return NULL;
 }
 void h_run(void) {
+  if (wl_pct(15)) { /* polling loops next to a mutex hand-off that the thread's maintenance fiber has to complete */
+    h_deferred_unlock_scenario("C10-polling-loop-starved");
+    return;
+  }
   sim_cfg_t c = sim_config(1, 3, 65, FBIT(F_STALL));
   nthreads = c.threads;
   /* "for any number of ready fibers": one program in sixteen is a crowd of up to 800 fibers (beyond the sizes
